@@ -2,6 +2,7 @@ pub mod addsub;
 pub mod bits;
 pub mod bytes;
 pub mod div;
+pub mod modpow;
 pub mod mul;
 pub mod text;
 
@@ -14,6 +15,7 @@ pub fn run(name: &str, r: &mut Rec) -> bool {
         "bytes" => bytes::run(r),
         "div" => div::run(r),
         "mul" => mul::run(r),
+        "modpow" => modpow::run(r),
         "text" => text::run(r),
         _ => return false,
     }
